@@ -126,6 +126,50 @@ CLAIMED["C18"] = dict(
        "histories as executed.",
   note=STATIC_NOTE, technique="literal-return discipline + shape conformance of the marker algebra")
 
+CLAIMED["C02"] = dict(
+  text="Decides table and recipe agreement with the published algorithms: the round-order / transposition / offset tables of md5-crypt, sha-crypt (both copies), "
+       "sha1-crypt, sun-md5 and cisco type 7 equal tables generated inside the checker from the specifications; magic constants and fixed parameters of every format; "
+       "passlib's _raw_sha2_crypt (never executed by the pinned suite) and libpass' _sha_crypt are statement-for-statement the same algorithm after renaming and "
+       "temp inlining (sibling unifier) and both have the specification's step shape; for each format the recipe -- which values go in which order into which "
+       "primitive, iteration counts, key lengths -- matches the specification; HMAC key preparation per RFC 2104. Not decided: control logic with neither sibling "
+       "nor table (sun-md5 coin flips), the digests themselves (runtime values).",
+  note=STATIC_NOTE, technique="table validation against references generated from the standards + sibling unification + recipe shape conformance")
+CLAIMED["C07"] = dict(
+  text="Decides structural necessary conditions of parse/render round-tripping for all 34 parser/renderer pairs of passlib.handlers and the libpass record classes: "
+       "all rendering paths of every to_string()/as_str() are enumerated (forking at if/else and conditional expressions) into literal/field skeletons; each "
+       "fits the skeleton of the regex the parser matches, and the attribute rendered at a group's position is the one the parser fills from that group; every "
+       "setting the parser reports is consulted on every rendering path and a field is omitted only under a condition the parser inverts (sha-crypt 5000+flag, "
+       "dlitz 400, argon2 v=16, sun-md5 '$md5$'=0 and bare-salt layouts, libpass rounds None); modular-crypt helper arguments agree; encoders are the inverses of "
+       "the decoders; numeric formats agree; regex repeat counts and slice offsets equal declared sizes / tested prefix lengths; concatenation order equals slice "
+       "order. Not decided: equality on every generated string (a round trip over runtime values).",
+  note=STATIC_NOTE, technique="path enumeration of renderers into token skeletons matched against the parser's regex tree; def-use from regex groups to constructor keywords; "
+            "size/offset agreement folded from class constants")
+CLAIMED["C11"] = dict(
+  text="Decides that every constant table of the built-in primitives equals a reference generated in the checker from the standard (Blowfish P/S = hex digits of pi "
+       "computed by Machin's formula, DES SPE tables = bit placement of the FIPS 46-3 S-boxes, MD4 round tables/constants/IV per RFC 1320, Salsa20/8 schedule), and "
+       "that the straight-line round code has the operand / rotation / index sequence the standard prescribes; DES key/salt bit-routing helpers are the stated "
+       "permutations (bit-provenance domain); MD4 copy()/digest()/padding bookkeeping; scrypt size arithmetic and validate(); HMAC / PBKDF1 / PBKDF2 shapes; SASLprep "
+       "stage order. Not decided: loop control of the ciphers beyond these shapes (would need execution).",
+  note=STATIC_NOTE, technique="table validation against generated references + normalised round-shape conformance + bit-provenance routing of the DES helpers")
+CLAIMED["C12"] = dict(
+  category="proof",
+  text="Per-group clauses at proof level: for each of the six 3-byte/4-symbol group coders (passlib big/little encode+decode, two libpass copies) the bit routing "
+       "extracted by a bit-provenance abstract interpretation of the straight-line group code is a permutation of the input bits onto 6-bit symbols with zero padding, "
+       "decode after encode is the identity routing, and it equals the layout generated from the definition of base64 / crypt's little-endian groups -- for every "
+       "input of a group, since the domain tracks each bit symbolically. Also decided: padding-repair masks clear exactly the ignored bits; integer codecs' range "
+       "guards and shift ladders; alphabets; unpadded/dot base64 helpers on every input type; base32 typo map; error mapping; libpass copies. Not decided: chunk/tail "
+       "loop bookkeeping beyond its shape.",
+  note=STATIC_NOTE + " Proof is of the group routing only (abstract domain sound for & | ^ << >> + on disjoint bit sets); the rest is rule conformance.",
+  technique="bit-provenance abstract interpretation (symbolic per-bit routing) compared with generated reference layouts")
+CLAIMED["C20"] = dict(
+  text="Decides the shared-format conditions of libpass/passlib interoperability: each libpass hasher renders through the record class its own verify/identify/"
+       "needs_update parse with; every string shape passlib renders for the six shared formats fits the libpass record regex and both renderers produce the same "
+       "literal skeletons; bcrypt-sha256 PHC parameter names/order equal passlib's v2 template; required literal prefixes of the libpass formats are pairwise "
+       "incompatible (identify exactness); _sha_crypt is statement-for-statement _raw_sha2_crypt, tables and hash64 engines are equal; hash() and verify() feed the "
+       "primitive through the same slots, implicit rounds 5000, pbkdf2 digest/size, whole-digest constant-time comparison; bcrypt-sha256 pre-hash roles on both "
+       "sides; needs_update = other format or other cost; the libpass context facts; helper copies. Not decided: digest equality as executed.",
+  note=STATIC_NOTE, technique="cross-API skeleton/regex agreement + sibling unification + slot/role agreement rules")
+
 NOT_APPLICABLE = {p: "check under construction in this session (will be claimed once its rules are built and validated on the clean tree)"
                   for p in ["C%02d" % i for i in range(1, 21)] if p not in CLAIMED}
 NOTES = ("All checks are static: ./check <ID> parses /repo's working tree on every run (81 units), evaluates the property's rules at every site and "
